@@ -1322,7 +1322,8 @@ fn collect_triple_variables(triple: &PropositionTriple, out: &mut BTreeSet<Strin
     }
 }
 
-fn collect_term_variables(term: &Term, out: &mut BTreeSet<String>) {
+/// Collects every variable a tuple endpoint mentions.
+pub fn collect_term_variables(term: &Term, out: &mut BTreeSet<String>) {
     match term {
         Term::Variable(name) => {
             out.insert(name.clone());
